@@ -15,11 +15,13 @@ QUICK = [(WINDOWS + ["timeout", "timeout_abs"], dict(MaxT=3, Hz=6, DispOps={"tim
           dict(MaxLen=2, MaxT=2, Terms={"C", "E"}, SpecTs={0, 1}, MaxLenS=1, MaxTS=1, Hz=5,
                Small={"timeout_with_mapper", "timeout_with_mapper_other", "timeout_abs_other"}))]
 
-THOROUGH = [(WINDOWS, dict(MaxLen=4, MaxT=6, Ds={0, 1, 2, 3}, AbsLo=2, Hz=10)),
-            (["timeout", "timeout_abs", "timeout_other", "timeout_abs_other"], dict(MaxLen=3, MaxT=4, AuxLen=2, Hz=8)),
-            (["timeout_with_mapper", "timeout_with_mapper_other"], dict(MaxLen=2, MaxT=3, SpecTs={0, 1, 2}, Hz=7)),
+THOROUGH = [(WINDOWS, dict(MaxLen=4, MaxT=5, Ds={0, 1, 2, 3}, AbsLo=2, Hz=9)),
+            (["timeout", "timeout_abs", "timeout_other", "timeout_abs_other"],
+             dict(MaxLen=3, MaxT=4, AuxLen=1, Small={"timeout_other", "timeout_abs_other"}, MaxLenS=2, MaxTS=3, Hz=8)),
+            (["timeout_with_mapper", "timeout_with_mapper_other"],
+             dict(MaxLen=2, MaxT=2, SpecTs={0, 1, 2}, AuxLen=1, Small={"timeout_with_mapper_other"}, MaxLenS=1, MaxTS=2, Hz=6)),
             (WINDOWS + ["timeout", "timeout_other", "timeout_with_mapper"],
-             dict(MaxLen=2, MaxT=3, Hz=6, DispLen=2, DispOps=set(WINDOWS) | {"timeout", "timeout_other", "timeout_with_mapper"})),
+             dict(MaxLen=2, MaxT=2, Hz=5, DispLen=2, DispOps=set(WINDOWS) | {"timeout", "timeout_other", "timeout_with_mapper"})),
             # a cold source that notifies at its very subscription instant
             (WINDOWS + ["timeout", "timeout_abs", "timeout_other", "timeout_with_mapper"],
              dict(Lo=0, MaxLen=2, MaxT=2, SpecTs={0, 1}, AuxLen=1, Hz=5))]
